@@ -10,7 +10,9 @@ source, against the code as it is now) still runs and can produce the concrete f
 OPTIONAL (C07: `_match_node_xpath`, a recursive function with real control flow, which a harmless rewrite can easily move
 out of the translated subset): lean/PyOak/Gen/KernelsXPath.lean + Props/GenBridgeXPath.lean are built separately (they are
 not part of the default `lake build` target).  When they do not re-prove, C07 says so in its evidence and rests on the
-correspondence between the hand-written model and the code, as for every other function."""
+correspondence between the hand-written model and the code, as for every other function.  Same policy for C02 (`_eq_fn`),
+C01 (`ASTNode.is_equal`), C08 (the matcher classes of match/pattern.py) and C06 (`class Tree`: `__init__` and every query
+method, translated by py2lean_t.py into Gen/KernelsTree.lean; bridge Props/GenBridgeTree.lean)."""
 from __future__ import annotations
 
 import re
@@ -18,6 +20,7 @@ import subprocess
 from pathlib import Path
 
 import py2lean_k
+import py2lean_t
 
 GEN_FILES = ("PyOak/Gen/Kernels.lean", "PyOak/Props/GenBridge.lean")
 _state = {"target": None, "prev": None}
@@ -127,3 +130,22 @@ def optional_match(repo: Path, lean: Path) -> dict:
     """C08: `BaseMatcher.match` + the `_match` methods of the six matcher classes (src/pyoak/match/pattern.py)"""
     return _optional(repo, lean, "KernelsMatch.lean", py2lean_k.generate_match, MATCH_MODULE, MATCH_THEOREMS,
                      "BaseMatcher.match / _match methods")
+
+
+TREE_MODULE = "PyOak.Props.GenBridgeTree"
+TREE_THEOREMS = ["PyOak.GenBridgeTree." + t for t in [
+    # on every table
+    "isRoot_eq_gen", "isInTree_eq_gen", "getXpath_eq_gen", "getParentInfo_eq_gen", "getParent_eq_gen", "initStep_eq_gen",
+    # on every table, for every node whose upward walk ends within the fuel (`Slack`)
+    "ancestorsAux_eq_gen", "getAncestors_eq_gen", "isAncestor_eq_gen", "firstAncestorOfType_eq_gen", "depthAux_eq_gen",
+    "getDepth_eq_gen",
+    # on the tables of Tree(root), NoRepeat root: every node has slack
+    "slack_build", "getAncestors_build_eq_gen", "isAncestor_build_eq_gen", "firstAncestorOfType_build_eq_gen",
+    "getDepth_build_eq_gen", "build_no_outOfFuel", "init_eq_gen",
+    # the hypothesis is needed (decide-checked witnesses on tables no Tree(root) produces)
+    "Demo.getAncestors_eq_gen_needs_slack_fails", "Demo.isAncestor_eq_gen_needs_slack_fails"]]
+
+
+def optional_tree(repo: Path, lean: Path) -> dict:
+    """C06: `class Tree` (src/pyoak/tree.py) -- `__init__` and every undecorated method"""
+    return _optional(repo, lean, "KernelsTree.lean", py2lean_t.generate_tree, TREE_MODULE, TREE_THEOREMS, "class Tree (pyoak/tree.py)")
